@@ -270,7 +270,7 @@ def run_one(m):
         if not flagged and not errors:
             t1 = time.time()
             pr = subprocess.run(
-                '%s -m pytest -q -x -p no:cacheprovider --timeout=120 '
+                'timeout -k 5 600 %s -m pytest -q -x -p no:cacheprovider --timeout=120 '
                 '--deselect tests/script_test.py::ScriptTest::test_script '
                 '--deselect tests/trace_test.py::test_callback 2>&1 | tail -3'
                 % PY, shell=True, cwd=tmp, capture_output=True, text=True,
